@@ -11,4 +11,5 @@ CONSTANTS
   BlockSize = 8192
   Pos <- MCPos
   GenDepth = 24
+  GenKinds = {}
 CHECK_DEADLOCK FALSE
